@@ -35,16 +35,20 @@ MANIFEST = {
             "(+frame), reg_exclusive, reg_version_scoped, growing partial function, first registration sticks for "
             "ever, built-ins never displaced, registered types parse to their class; recognisers <-> declarative "
             "naming rules (type, extension and property names) for the repaired variants, *_refuted witnesses for "
-            "the code as found; invalid names refused with the registry unchanged. Correspondence: histories in "
-            "fresh interpreters + name strings vs the model; oracle = reference dictionary + naming rules + "
-            "round-trip/validation/versioning of registered custom types.",
+            "the code as found; invalid names refused with the registry unchanged; the class table each decorator "
+            "builds (Model/RegistryBuilder.v, schema family's vocabulary) has distinct names, the standard properties "
+            "intact around the user's, equal slot for slot to the specification's common properties, and keeps the "
+            "C02 side condition world_refines for the extended world. Correspondence: histories in fresh "
+            "interpreters + name strings + dumped live custom classes vs the model; oracle = reference dictionary + "
+            "naming rules + round-trip/validation/versioning of registered custom types.",
     "design_ref": "DESIGN.md 6/C19, 7 row C19",
     "note": "Trusted: Coq kernel + vm_compute, tr_regex translator (regex TEXTS are tied, the recognisers restate "
             "Python's re semantics by hand and are compared with re on generated names every run), "
             "coq/Spec/NamingSpec.v written from the normative text (character sets, lengths, no double hyphen: "
-            "certain; leading letter in 2.1: what the library and the 2.1 schema demand). `custom types inherit the "
-            "C01/C02/C05 theorems` is NOT proved here (those models belong to other properties); it is exercised "
-            "by the oracle on registered types only. Regex running time is outside the model (measured with a time "
+            "certain; leading letter in 2.1: what the library and the 2.1 schema demand). `custom types inherit`: proved is that the "
+            "builder's table satisfies what the generic schema theorems ask of a class table (well-formedness, "
+            "world_refines for the extended world) and that it is the live class; the instantiated end-to-end "
+            "C01/C02/C05 statements are not assembled here (the oracle exercises them on registered types). Regex running time is outside the model (measured with a time "
             "limit). No axioms.",
     "technique": "Coq proof over a hand-written executable model + translator for regex texts/built-in registry "
                  "+ fresh-interpreter correspondence of registration histories",
@@ -562,7 +566,7 @@ USER_KINDS = [
     {"k": "list", "of": {"k": "string"}}, {"k": "list", "of": {"k": "int", "min": 1, "max": None}},
     {"k": "list", "of": {"k": "enum", "allowed": ["p", "q"]}},
 ]
-USER_NAMES = ["prop1", "name2", "count_it", "tags", "flag", "when_seen", "x_zeta", "x_alpha", "x_mid", "x_", "x_alpha2",
+USER_NAMES = ["prop1", "name2", "count_it", "tags", "flag", "when_seen", "x_zeta", "x_alpha", "x_mid", "x_b", "x_alpha2",
               "xylo", "description", "value"]
 
 
@@ -693,19 +697,21 @@ CK_COQ = {"object": "CObject", "observable": "CObservable", "marking": "CMarking
 XTR_COQ = {k: "Registry." + v for k, v in XT_COQ.items()}
 
 
-def inherit_term(o):
+def inherit_term(o, conf_range):
     import tr_tables
     slots = ["mk_slot %s %s %s %s" % (common.coq_ustr(p[0]), tr_tables.kind(dump_kind(p[1], o["ver"])),
                                      common.coq_bool(bool(p[2])), tr_tables.dflt(dump_default(p[1]))) for p in o["props"]]
     xt = "None" if not o.get("exttype") else "(Some %s)" % XTR_COQ[o["exttype"]]
-    return "show_cls (custom_cls %s %s %s %s %s %s)" % (CK_COQ[o["kind"]], coq_ver(o["ver"]), common.coq_ustr(o["name"]), xt,
+    return "show_cls (custom_cls {| b_conf_range := %s |} %s %s %s %s %s %s)" % (common.coq_bool(conf_range), CK_COQ[o["kind"]], coq_ver(o["ver"]), common.coq_ustr(o["name"]), xt,
                                                        common.coq_list(slots), common.coq_ustr(o["cls"]))
 
 
 def check_inherit(run, n_cases, model_ok):
     """The class table each decorator builds (live class, dumped with the schema translator's functions) against the
     builder model Model/RegistryBuilder.v."""
-    cases = [gen_inherit(run, i) for i in range(n_cases)]
+    probe = {"k": "dump", "id": -1, "regs": [{"kind": "object", "ver": "2.1", "name": "x-probe", "cls": "P0",
+                                              "props": [["prop1", {"k": "string"}, False]]}]}
+    cases = [probe] + [gen_inherit(run, i) for i in range(n_cases)]
     res = common.run_impl("c19_dump", cases, procs=min(common.NCPU, max(1, len(cases) // 4)))
     pairs = []
     for c, r in zip(cases, res):
@@ -724,12 +730,19 @@ def check_inherit(run, n_cases, model_ok):
                 if d["has_own_constraints"]:
                     run.broken.append(Broken("correspondence", "custom class has constraints of its own", {"reg": o}))
                 pairs.append((o, render_cls(d), d))
+    # variant of the source: how the v21 CustomObject wrapper writes `confidence` (read off the probe's class)
+    conf_range = False
+    for o, line, d in pairs:
+        if o["name"] == "x-probe":
+            ks = [sl["kind"] for sl in d["slots"] if sl["name"] == "confidence"]
+            conf_range = bool(ks) and ks[0].get("min") == 0 and ks[0].get("max") == 100
+    run.coverage["builder_variant_conf_range"] = conf_range
     run.coverage["inherit_classes_dumped"] = len(pairs)
     if pairs:
         run.sample({"custom class (live, dumped)": pairs[0][1][:600]})
     if model_ok and pairs:
         try:
-            mlines = common.coq_eval_lines("c19b", HEADER_B, [inherit_term(o) for o, _, _ in pairs], shard=40)
+            mlines = common.coq_eval_lines("c19b", HEADER_B, [inherit_term(o, conf_range) for o, _, _ in pairs], shard=40)
             dis = [(o, i, m) for (o, i, _), m in zip(pairs, mlines) if i != m]
             run.coverage["inherit_disagreements"] = len(dis)
             if dis:
@@ -892,6 +905,23 @@ def check(run):
         if gen_ok:
             res = common.build_props("Props/C19.v")
             run.add_build(res, "make -C coq Props/C19.vo (coqc 8.16.1, full .vo) + Print Assumptions per theorem")
+            # the part of `custom types inherit` that is evaluated on the schema family's generated tables
+            mine = ("Props/C19Inherit.v", "Proofs/C19Inherit.v", "Proofs/C19InheritTables.v", "Model/RegistryBuilder.v")
+            try:
+                import translate_all
+                translate_all._tables()
+                res2 = common.build_props("Props/C19Inherit.v")
+                fa = res2["failed_at"]
+                if res2["ok"] or (fa and fa[0] in mine):
+                    run.add_build(res2, "make -C coq Props/C19.vo Props/C19Inherit.vo (coqc 8.16.1, full .vo) + Print Assumptions per theorem")
+                    run.coverage["inherit_tables"] = "built"
+                else:
+                    run.coverage["inherit_tables"] = "not built: %s" % (fa[0] if fa else res2["log_tail"][-300:])
+                    run.notes.append("Props/C19Inherit.v not built (a file of the schema family did not compile): %s"
+                                     % (res2["log_tail"][-600:]))
+            except Exception as e:  # noqa: BLE001 -- tr_tables belongs to the schema family; its abort is reported there
+                run.coverage["inherit_tables"] = "not built: tr_tables: %s" % e
+                run.notes.append("tr_tables aborted: %s" % e)
         else:
             run.coverage["obligations"] += len(common.theorems_in("Props/C19.v"))
     model_ok = bool(gen_ok and res and (res["ok"] or (res["failed_at"] or ("",))[0].startswith("Props/")
